@@ -558,8 +558,21 @@ def rule_collision(ctx, rule='C01.COLLISION'):
         brk = [x for x in walk_own(lp) if isinstance(x, ast.Break)]
         after = [r for r in lh.node.body if isinstance(r, ast.Return)]
         miss = len(after) == 1 and norm(after[0].value) == '(None, None)'
-        ok = bool(rets) and good and not brk and miss
-        why = f'every in-loop return under hash equality only={good}, no break={not brk}, miss returns (None, None)={miss}'
+        # the same requirement over the whole function: a shortcut ahead of (or behind) the row loop that answers with a row
+        # - "only one candidate, as in spend_utxo" - is wrong here, where the prevout need not exist at all
+        def _hash_eq(t, pol):
+            return (isinstance(t, ast.Compare) and len(t.ops) == 1
+                    and ((isinstance(t.ops[0], ast.Eq) and pol) or (isinstance(t.ops[0], ast.NotEq) and not pol))
+                    and any(isinstance(c, ast.Call) and q.callee_name(ctx, lh, c) == 'self.fs_tx_hash' for c in ast.walk(t)))
+        shortcut = []
+        for p_ in P.paths(lh.node.body):
+            if p_.exit != 'return' or p_.value is None or norm(p_.value) == '(None, None)':
+                continue
+            if not any(_hash_eq(t, pol) for t, pol in p_.decisions()):
+                shortcut.append(f'line {getattr(p_.node, "lineno", "?")}: ' + ' & '.join(p_.cond_texts())[:120])
+        ok = bool(rets) and good and not brk and miss and not shortcut
+        why = (f'every in-loop return under hash equality only={good}, no break={not brk}, miss returns (None, None)={miss}, '
+               f'returns of a row without the equality anywhere in the function={shortcut[:2]}')
     # a miss is the absence of the row, never a property of the amount: an output of value zero is a UTXO like any other
     # (`if not value:` on the decoded integer answers "unknown" for it; its spender is dropped from the mempool view)
     for g_ in (_lo, f):
